@@ -435,7 +435,8 @@ def cs1_program(draw, max_statements=12, risk=None, allow_input=True, depth=2):
 
 
 def input_queue():
-    return st.lists(st.sampled_from(['5', '12', 'hello', '0', '-3', ' 7 ', 'x y', '', '3', '41']), max_size=5)
+    return st.one_of(st.lists(st.sampled_from(['5', '12', 'hello', '0', '-3', ' 7 ', 'x y', '', '3', '41']), max_size=5),
+                     st.lists(st.sampled_from(['', '7', 'a\u2028b', 'x\ry', 'tab\tbed', ' ']), min_size=1, max_size=1))
 
 
 ARG_VALUES = ['0', '1', '-7', '9', '40', '10 ** 30', '2.5', '-0.0', '0.1 + 0.2', '1e-07', '123456.789012345', '2 / 3', "float('nan')", "float('inf')", "-float('inf')", 'True', 'None', "''", "'abc'", "'x' * 300",
